@@ -73,7 +73,16 @@ def impl_mra(c):
     # makes of them (rounded to 7 decimals), which is what the model and the oracle reason about
     s = st.build_sym(c.get('raw', c)['s'], env)
     h = st.build_sym(c.get('raw', c)['h'], env)
-    L = st.build_sym(c['L'], env)
+    if 'L0' in c:
+        # L is what `without_zeros()` makes of a signomial with explicit zero coefficients whose coefficient table was looked at
+        # before (query_coeff / alpha_c / ==): the stripped exponents are no longer exponents of L
+        L0 = st.build_sym(c['L0'], env)
+        _ = L0.alpha_c
+        _ = L0.query_coeff(np.array([float(F(x)) for x in c['L0']['alpha'][0]]))
+        _ = (L0 == L0)
+        L = L0.without_zeros()
+    else:
+        L = st.build_sym(c['L'], env)
     C = sc.moment_reduction_array(s, h, L)
     return {'C': [[st.fr(x) for x in row] for row in np.asarray(C, dtype=float).tolist()]}
 
@@ -292,8 +301,46 @@ def gen_mra_tiny_case(rng):
     return {'sizes': [2, len(Lrows)], 's': s, 'h': leaf(hrows, hc, n, poly), 'L': L, 'kind': kind}
 
 
+def gen_mra_stripped_case(rng):
+    """numeric L obtained by `without_zeros()` from L0, which carries explicit zero coefficients; s*h needs one of the stripped
+    exponents (an error) or none of them"""
+    n = rng.randint(1, 2)
+    poly = rng.random() < 0.4
+    ms, mh = rng.randint(1, 2), rng.randint(1, 2)
+    srows = rand_rows(rng, ms, n, poly)
+    hrows = rand_rows(rng, mh, n, poly)
+    hc = [frac_str(F(rng.choice([-3, -1, 1, 2, 5]))) for _ in range(mh)]
+    s = leaf(srows, [{'off': '0', 'co': [[i, '1']]} for i in range(ms)], n, poly, sym=True, purevar=0)
+    need = []
+    for si in srows:
+        for hj in hrows:
+            r = [a + b for a, b in zip(si, hj)]
+            if r not in need:
+                need.append(r)
+    extra = [r for r in rand_rows(rng, rng.randint(1, 3), n, poly) if r not in need]
+    rows0 = need + extra
+    rng.shuffle(rows0)
+    zero_at = set()
+    kind = 'stripped-contained'
+    if rng.random() < 0.6:
+        zero_at.add(rows0.index(rng.choice(need)))
+        kind = 'stripped-missing'
+    for r in extra:
+        if rng.random() < 0.5:
+            zero_at.add(rows0.index(r))
+    c0 = ['0' if i in zero_at else frac_str(F(rng.choice([-2, 1, 3, 5]))) for i in range(len(rows0))]
+    keep = [i for i in range(len(rows0)) if i not in zero_at]
+    if not keep:
+        return gen_mra_case(rng)
+    L0 = leaf(rows0, c0, n, poly)
+    L = leaf([rows0[i] for i in keep], [c0[i] for i in keep], n, poly)
+    return {'sizes': [ms, 1], 's': s, 'h': leaf(hrows, hc, n, poly), 'L': L, 'L0': L0, 'kind': kind}
+
+
 def gen_mra_case(rng):
     r0 = rng.random()
+    if r0 < 0.06:
+        return gen_mra_stripped_case(rng)
     if r0 < 0.08:
         return gen_mra_cancel_case(rng)
     if r0 < 0.16:
